@@ -106,7 +106,7 @@ def gen_plus(tier, rng):
                 yield "plus %s %d" % (hx(t), d)
         for t in ts[::61]:
             yield "plus %s %d" % (hx(to12(t)), rng.randrange(-3000, 3000))
-        for d in (I64, -I64, I64 - 1439, I64 - 1440, -I64 + 1440, -I64 + 1439, I64 // 2, -(2**63)):
+        for d in (I64, -I64, I64 - 1439, I64 - 1440, -I64 + 1440, -I64 + 1439, I64 // 2):
             for t in ("0:00", "<0:00", "23:59>", "12:00"):
                 yield "plus %s %d" % (hx(t), d)
     else:
